@@ -427,6 +427,17 @@ func stepsim(t *testing.T, tp *simrt.Tape, opts RunOpts) *Outcome {
 		sc.Dag.MaxCleanUpSec = pick(tp, 1, 5)
 	case "precond":
 		sc.Dag.DagPrecond = 1 + tp.Draw(simrt.SGen, 2)
+	case "log":
+		// a quarter of the runs are stopped at a seeded step (e.g. during output or during a retry interval)
+		if chance(tp, 1, 4) {
+			sc.StopAt = 1 + tp.Draw(simrt.SGen, 3000)
+			sc.StopVia = "socket"
+			for i := range sc.Dag.Steps {
+				if sc.Dag.Steps[i].RetryLimit > 0 && chance(tp, 1, 2) {
+					sc.Dag.Steps[i].RetryInterval = 1 + tp.Draw(simrt.SGen, 2)
+				}
+			}
+		}
 	}
 	sc.YAML = sc.Dag.YAML()
 	out.Sample = sc
